@@ -12,7 +12,7 @@ use std::rc::Rc;
 pub const DEF: PropDef = PropDef {
     id: "C20",
     level: "exploration",
-    rule: "a corpus of programs (succeeding, failing at parse time on various lines, failing at run time after k lines of output, failing with messages that quote values of 60..5000 characters / elements (ASCII and multi-byte), reading input, printing multi-line strings, building dictionaries, stray break / continue / return at top level followed by further blocks, several lint diagnostics per line in both name orders) x 8 standard-input contents (lines ending in CR LF, empty, one line, several lines, no final newline, non-ASCII, a line that is not valid UTF-8, leading blank lines) x sub-commands exec (separate pipes; stdout+stderr merged into one pipe for the first two inputs, thorough: for all), lint, parse; plus 14 file forms (a said text of 8 KiB stretches between line breaks, leading blank lines, string constants with backticks, missing final newline, CRLF, byte-order mark, multi-line strings, 3000 lines (more output than a pipe buffer) with and without a final runtime error) under 12 file names (blanks, non-ASCII, NBSP, tab, apostrophe, no / double / upper-case extension, hidden, nested directories, a directory named like an option) x 4 sub-command modes; plus 4 programs handed over through a pipe (`rrss SUB /dev/stdin < program`); plus usage errors (unknown sub-command, missing argument, missing file, directory as file) and dictionary programs run as separate processes under 8 hash seeds (LD_PRELOAD getrandom shim); oracle (independent of src/cli): stdout equals what frontend::parser::parse + exec::exec_using write for the same text and input; `parse` prints the pretty Debug tree of the library's parse; `lint` prints one line per library diagnostic (its line and issue) followed by one tab-indented line per suggestion and nothing else; errors go to stderr as `<prefix naming parse/runtime>: <library message>`, on the merged pipe the error line comes after all output, usage errors exit non-zero; non-trivial = every case (a process is spawned and compared); distinct = distinct (program, input, mode)",
+    rule: "a corpus of programs (succeeding, failing at parse time on various lines, failing at run time after k lines of output, failing with messages that quote values of 60..5000 characters / elements (ASCII and multi-byte), reading input, printing multi-line strings, building dictionaries, stray break / continue / return at top level followed by further blocks, several lint diagnostics per line in both name orders, recursion 100 / 300 / 1000 calls deep) x 8 standard-input contents (lines ending in CR LF, empty, one line, several lines, no final newline, non-ASCII, a line that is not valid UTF-8, leading blank lines) x sub-commands exec (separate pipes; stdout+stderr merged into one pipe for the first two inputs, thorough: for all), lint, parse; plus 14 file forms (a said text of 8 KiB stretches between line breaks, leading blank lines, string constants with backticks, missing final newline, CRLF, byte-order mark, multi-line strings, 3000 lines (more output than a pipe buffer) with and without a final runtime error) under 12 file names (blanks, non-ASCII, NBSP, tab, apostrophe, no / double / upper-case extension, hidden, nested directories, a directory named like an option) x 4 sub-command modes; plus 4 programs handed over through a pipe (`rrss SUB /dev/stdin < program`); plus usage errors (unknown sub-command, missing argument, missing file, directory as file) and dictionary programs run as separate processes under 8 hash seeds (LD_PRELOAD getrandom shim); oracle (independent of src/cli): stdout equals what frontend::parser::parse + exec::exec_using write for the same text and input; `parse` prints the pretty Debug tree of the library's parse; `lint` prints one line per library diagnostic (its line and issue) followed by one tab-indented line per suggestion and nothing else; errors go to stderr as `<prefix naming parse/runtime>: <library message>`, on the merged pipe the error line comes after all output, usage errors exit non-zero; non-trivial = every case (a process is spawned and compared); distinct = distinct (program, input, mode)",
     assumptions: &["NO_COLOR=1 for both sides", "exit status after parse / runtime errors and with no arguments at all is observed and reported, not judged (the property does not state it)", "the binaries are rebuilt from /repo by ./check before the run"],
     build,
     exhaustive: true,
